@@ -951,12 +951,17 @@ impl Evaluator {
                             let q = &x / &y;
                             Dec(x - q * y, e)
                         } else {
-                            // exact when the quotient terminates within 60 digits
+                            // exact when the quotient terminates and has at most 90 significant digits
+                            // (the documentation promises no precision; the examples are exact)
                             let (x, y, _) = d_align(&ds[0], &ds[1]);
                             for k in 0..60u64 {
                                 let num = &x * pow10(k);
                                 if (&num % &y).is_zero() {
-                                    return Dec(num / &y, -(k as i64));
+                                    let q = num / &y;
+                                    if q.abs().to_string().trim_end_matches('0').len() > 90 {
+                                        return U;
+                                    }
+                                    return Dec(q, -(k as i64));
                                 }
                             }
                             U
